@@ -78,10 +78,20 @@ def _templates():
         add("exists", gname, lambda r: 'exists <assgn> a1: exists <assgn> a2: (before(a1, a2) and a1.<var> = a2.<var>)')
         add("defuse", gname, lambda r: 'forall <assgn> assgn_1: exists <assgn> assgn_2: (before(assgn_2, assgn_1) and '
                                        'assgn_1.<rhs>.<var> = assgn_2.<var>)')
+        # formulas that keep a disjunction / a semantic predicate INSIDE queued states (below quantifiers): their
+        # hashes take part in the tie-break of equal-cost states
+        add("defuse", gname, lambda r: 'forall <assgn> assgn_1: exists <assgn> assgn_2: ((before(assgn_2, assgn_1) or '
+                                       'same_position(assgn_2, assgn_1)) and assgn_1.<rhs>.<var> = assgn_2.<var>)')
+        add("defuse", gname, lambda r: 'forall <assgn> assgn_1: exists <assgn> assgn_2: (before(assgn_2, assgn_1) and '
+                                       'count(assgn_2, "<var>", "1") and assgn_1.<rhs>.<var> = assgn_2.<var>)')
         add("count", gname, lambda r: 'count(start, "<assgn>", "%d")' % r.randint(2, 5))
         add("count", gname, lambda r: 'not count(start, "<assgn>", "%d")' % r.randint(1, 4))
         add("count", gname, lambda r: 'exists int n: (str.to.int(n) > %d and count(start, "<assgn>", n))' % r.randint(1, 3))
         add("count", gname, lambda r: 'exists int n: not count(start, "<assgn>", n)')
+        # several admissible integers: which one Z3 picks must not differ between processes
+        add("count", gname, lambda r: 'exists int n: (str.to.int(n) >= 2 and str.to.int(n) <= %d and count(start, "<assgn>", n))' % r.randint(3, 5))
+        add("count", gname, lambda r: 'forall <stmt> s in start: exists int n: (str.to.int(n) >= 1 and str.to.int(n) <= 4 and '
+                                      'count(s, "<var>", n))')
         add("count", gname, lambda r: 'exists int n: (str.to.int(n) > %d and not count(start, "<assgn>", n))' % r.randint(0, 2))
         add("numeric", gname, lambda r: 'exists int n: str.to.int(n) * 0 = 0')
         add("numeric", gname, lambda r: 'exists int n: forall <stmt> s in start: (str.to.int(n) >= %d and str.len(s) > str.to.int(n))'
@@ -228,7 +238,7 @@ def generate(rnd, tier):
         alt = pick(rnd, [h for h in (0, 1, 7, 99) if h != hs])
     return {"family": fam, "sub": sub, "gname": gname, "grammar": grammar, "constraint": constraint,
             "settings": _settings(rnd, fam), "rseed": rnd.randint(0, 2 ** 32 - 1), "hashseed": hs,
-            "n": pick(rnd, [3, 4, 5, 6, 8, 10]), "alt_hashseed": alt}
+            "n": pick(rnd, [3, 5, 8, 10, 16, 24] if fam in ("defuse", "combo", "exists") else [3, 4, 5, 6, 8, 10]), "alt_hashseed": alt}
 
 
 # ------------------------------------------------------------------------------------------------ running children
